@@ -40,7 +40,7 @@ TABLE = [
     ("C17", r".*", r".*", ["matrix_dense_model"]),
     ("C16", r"lucx", r"max_tracks|maximal|multipliers", ["complex_multiplier_modulus", "lu_small"]),
     ("C16", r".*", r".*", ["lu_small"]),
-    ("C15", r".*", r".*", ["default_mass", "banded_jacobian_storage", "banded_mass_storage"]),
+    ("C15", r".*", r".*", ["default_mass", "banded_jacobian_storage", "banded_mass_storage", "dae_constraint"]),
     ("C05", r".*", r".*", ["teval_terminal", "teval_backward_endpoints"]),
     ("C08", r"solout", r"brent|events\.time|span\.", ["brent_stays_in_bracket"]),
     ("C03", r"solout", r"brent|event_function|events\.time", ["brent_stays_in_bracket"]),
